@@ -13,7 +13,8 @@ variable (E : Env) (cfg : Cfg)
 theorem step_yield_iff (base h l : Str) :
     step E cfg base h = .yield l ↔
       h ≠ [] ∧ shouldFollowHref E h = true ∧
-        ∃ u, resolve E base h = .ok u ∧ E.isUrl u = true ∧ finish E cfg u = .ok l ∧ l ≠ base := by
+        ∃ u, resolve E base h = .ok u ∧ E.isUrl u = true ∧ finish E cfg u = .ok l ∧ l ≠ base ∧
+          (cfg.canonicalize = true → E.isUrl l = true) := by
   unfold step
   by_cases h0 : h = []
   · simp [h0]
@@ -28,16 +29,27 @@ theorem step_yield_iff (base h l : Str) :
         · cases hc : finish E cfg u1 with
           | error e => simp [h0', hu, hc]
           | ok u2 =>
-            by_cases hb : u2 = base
-            · subst hb
-              simp only [h0', hu, hc, h0]
+            cases hcan : cfg.canonicalize && !E.isUrl u2
+            · have himp : cfg.canonicalize = true → E.isUrl u2 = true := by
+                intro hct
+                cases hu2 : E.isUrl u2
+                · rw [hct, hu2] at hcan; cases hcan
+                · rfl
+              by_cases hb : u2 = base
+              · subst hb
+                simp only [h0', hu, hc, h0, hcan]
+                simp
+                intro _ _ hl; rw [hc] at hl; cases hl; intro hne; exact absurd rfl hne
+              · simp only [h0', hu, hc, h0, hb, hcan]
+                simp
+                constructor
+                · intro e; subst e; exact ⟨h0, hu, hc, hb, himp⟩
+                · intro e; have h3 := e.2.2.1; rw [hc] at h3; cases h3; rfl
+            · simp only [h0', hu, hc, h0, hcan]
               simp
-              intro _ _ hl; rw [hc] at hl; cases hl; rfl
-            · simp only [h0', hu, hc, h0, hb]
-              simp
-              constructor
-              · intro e; subst e; exact ⟨h0, hu, hc, hb⟩
-              · intro e; have h3 := e.2.2.1; rw [hc] at h3; cases h3; rfl
+              intro _ _ hl; rw [hc] at hl; cases hl
+              intro _
+              simpa using hcan
 
 /-- the link produced for an href, as a relation (hides `Step`) -/
 def Yields (base h l : Str) : Prop := step E cfg base h = .yield l
